@@ -263,7 +263,7 @@ theorem InvW.closed : Closed InvW where
     · exact h.of_eq rfl rfl rfl
     · exact h
   ctxEmpty := fun _ _ h => h.of_eq rfl rfl rfl
-  dropCtx := fun _ _ h _ _ => h.of_eq rfl rfl rfl
+  dropCtx := fun _ _ h _ _ _ => h.of_eq rfl rfl rfl
   prepRead := fun _ _ h => h.of_eq rfl rfl rfl
   commitRead := fun _ _ h => h.of_eq rfl rfl rfl
   readOne := fun s i st rest h _ _ => by
